@@ -12,7 +12,7 @@ func vInRange(n proto.ChannelNumber) bool { return vAnd(n >= 0x4000, n <= 0x7FFF
 
 // Constructed pre-state (two real AddChannelBind calls from the real constructor), then an arbitrary third.
 //
-//verif:props=C08 bounds="all 2^16 channel numbers x3; IPv4/IPv6 peers with all ports; table of <=2 prior bindings built by real calls"
+//verif:props=C08,C07,C01 bounds="all 2^16 channel numbers x3; IPv4/IPv6 peers with all ports; table of <=2 prior bindings built by real calls"
 func VerifHarness_C08_bind_step() {
 	a, _, _ := VNewAlloc(nil)
 	log := &VLogger{}
@@ -30,10 +30,22 @@ func VerifHarness_C08_bind_step() {
 	vAssertIf(!vInRange(n2), e2 == proto.ErrInvalidChannelNumber, "C08.out_of_range_number_error")
 	len2 := len(a.channelBindings)
 	// third, arbitrary bind against the constructed table
+	nPerm2 := len(a.permissions)
+	permResets := 0
+	for _, pm := range a.permissions {
+		permResets += vTimerResets(pm.lifetimeTimer)
+	}
 	before1 := a.GetChannelByNumber(n3)
 	before2 := a.GetChannelByAddr(p3)
 	e3 := a.AddChannelBind(NewChannelBind(n3, p3, log), 600e9, 300e9)
 	vAssertIf(e3 != nil, len(a.channelBindings) == len2, "C08.rejected_bind_changes_nothing")
+	permResets3 := 0
+	for _, pm := range a.permissions {
+		permResets3 += vTimerResets(pm.lifetimeTimer)
+	}
+	vAssertIf(e3 != nil, len(a.permissions) == nPerm2, "C07.rejected_bind_installs_no_permission")
+	vAssertIf(e3 != nil, len(a.permissions) == nPerm2, "C01.rejected_bind_installs_no_permission")
+	vAssertIf(e3 != nil, permResets3 == permResets, "C07.rejected_bind_refreshes_no_permission")
 	vAssertIf(vAnd(e3 == nil, before1 != nil), len(a.channelBindings) == len2, "C08.rebind_adds_no_entry")
 	vAssertIf(vAnd(e3 == nil, before1 == nil), len(a.channelBindings) == len2+1, "C08.new_bind_adds_one_entry")
 	vAssertIf(vAnd(before1 != nil, before2 != before1), e3 != nil, "C08.bound_number_to_other_peer_rejected")
